@@ -3,7 +3,7 @@ CONSTANTS
   Inst = {a, b, c}
   Shard = {11, 21}
   MaxStreams = 3
-  MaxEnv = 4
+  MaxEnv = 3
   MaxMsg = 0
   AllowHold = FALSE
   AllowBreak = FALSE
